@@ -29,7 +29,7 @@ def run(tier, replay):
             cases_path = replay
         vlib.run_harness(["base64", "--cases", cases_path, "--out", trace, "--seed", vlib.seed(),
                           "--random", nrand, "--maxlen", maxlen, "--corrupt", ncorr, "--sweep", sweep, "--threads", 14,
-                          "--insert", 6 if tier == "quick" else 60, "--big", 9 if tier == "quick" else 30, "--bigdec", 0 if tier == "quick" else 3, "--biglen", 65536],
+                          "--insert", 6 if tier == "quick" else 60, "--longforeign", 2 if tier == "quick" else 8, "--big", 9 if tier == "quick" else 30, "--bigdec", 0 if tier == "quick" else 3, "--biglen", 65536],
                          timeout=3000)
         # 3. validate the recorded trace against the specification
         tv = vlib.validate_trace("Trace_Base64", trace, heap="12g" if tier == "thorough" else "6g")
